@@ -757,7 +757,16 @@ impl<'a> GeneratorState<'a> {
                     }
                 }
                 variable => {
-                    let v = self.compiler_state.get_variable(variable);
+                    // A function that is only declared is no variable
+                    let v = match self.compiler_state.variables.get(variable) {
+                        Some(v) => v,
+                        None => {
+                            return Err(self.compiler_state.syntax_error(
+                                &format!("{} is not a variable", variable),
+                                pos,
+                            ))
+                        }
+                    };
                     let dummy = if let Expr::Nothing = **sub {
                         None
                     } else {
